@@ -197,6 +197,27 @@ def run(rng, tier, model_ok):
                         "key": "unit-value:%s" % word if word in known_bad else None}
             return None
         items.append((q, o))
+    # ---- a word that concatenates two units, followed by ^n: the power applies to the last unit of the word, under its own prefix
+    cat = []
+    firsts = ["N", "kW", "W", "kg", "J", "mN", "V", "A", "kJ", "Wb"]
+    lasts = ["m", "mm", "h", "s", "ms", "K", "mK", "km", "g", "kg", "V", "mA"]
+    fr = dict(zip(firsts + lasts, unitlib.impl_units(firsts + lasts)))
+    words2 = [(a, b, a + b) for a in firsts for b in lasts if a != b]
+    wr = dict(zip([w for _, _, w in words2], unitlib.impl_units([w for _, _, w in words2])))
+    for a, b, w in words2:
+        ra, rb, rw = fr.get(a), fr.get(b), wr.get(w)
+        if not ra or not rb or not rw or len(ra) != 1 or len(rb) != 1 or ra[0][0] == rb[0][0]:
+            continue
+        if sorted(map(list, rw)) != sorted(map(list, ra + rb)):
+            continue                                  # the concatenation spells something else: not this family
+        for n_ in (2, 3, -1, -2):
+            cat.append(("%s^%d" % (w, n_), [list(ra[0]), [rb[0][0], rb[0][1] * n_, rb[0][2]]]))
+            cat.append(("s/%s^%d" % (w, n_), None))
+    crep2 = unitlib.impl_units([tx for tx, _ in cat])
+    for (tx, want), got in zip(cat, crep2):
+        if want is not None and got is not None and sorted(map(list, got)) != sorted(want):
+            failures.append({"input": tx, "why": "the power follows the last unit of the word: expected %s, read as %s" % (sorted(want), sorted(map(list, got)))})
+    stats["concatenated_words_with_power"] = len(cat)
     # ---- a word means the same whatever it is cast to: every unit against a representative of every dimension
     for q, na, nt in unitlib.cast_matrix(V, rng, tier):
         def co(reply, na=na, nt=nt, q=q):
